@@ -78,6 +78,21 @@ def evaluate(case):
     elif got != want:
         k = next((q for q, (x, y) in enumerate(zip(got, want)) if x != y), min(len(got), len(want)))
         ev.dev("round-trip-differs", index=k, decoded=got[k] if k < len(got) else None, parsed=want[k] if k < len(want) else None, lens=[len(got), len(want)])
+    if not ev.deviations:
+        # with the address-range observer installed the stream must stay a well-formed encoding of the same instructions
+        # (only operands of direct call/jmp may be replaced by the tag)
+        r2 = jasm_io.stream_of(text, config={"valid_addr_range": {"min": "0x1000", "max": "0x2000"}})
+        if r2[0] == "exc":
+            ev.dev("parser-exception", with_config="valid_addr_range", error=list(r2[1:]))
+        elif r2[0] == "ok":
+            got2 = decode_stream(r2[1])
+            if got2 is None or [(a, m) for a, m, _ in got2] != [(a, m) for a, m, _ in want]:
+                ev.dev("round-trip-differs", with_config="valid_addr_range", lens=[len(got2) if got2 else None, len(want)])
+            else:
+                for (a, m, o2), (_, _, o1) in zip(got2, want):
+                    if o2 != o1 and o2 != ["valid_addr"]:
+                        ev.dev("operands-changed-by-observer", instruction=[a, m, o1], observed=o2)
+                        break
     mix = any(ops == [""] for _, _, ops in want) and any(len(ops) >= 2 for _, _, ops in want) and any(o.startswith("[") for _, _, ops in want for o in ops)
     if mix:
         ev.tags.append("nontrivial-mix")
